@@ -94,6 +94,9 @@ def _job_tmpl(args):
         from bounded.memory import judge_iteration_program
         vals, warm = extra
         res = judge_iteration_program(src, "m", "out", vals[:1], optimize=optimize, ticks=30, warmup=warm)
+        if res.get("status") != "judged":
+            return pid, src, [{"name": f"template:{pid}:iteration", "status": "undecided", "backend": "", "ms": 0,
+                               "detail": f"{res.get('status')}: {str(res.get('detail'))[:200]}"}]
         L = (res.get("latencies") or [None])[0]
         if L is None:
             return pid, src, [{"name": f"template:{pid}:iteration", "status": "violated", "backend": "", "ms": 0,
